@@ -29,8 +29,8 @@ def _work(chunk):
     for cid, case in chunk:
         try:
             out.append((cid, (R.run_life_case if case.get("life") else R.run_case)(cid, case), None))
-        except R.WouldBlock:
-            out.append((cid, None, "WouldBlock escaped"))
+        except (R.WouldBlock, R.Hang) as e:
+            out.append((cid, None, f"{type(e).__name__} escaped"))
         except Exception as e:  # noqa: BLE001
             out.append((cid, None, f"{type(e).__name__}: {e}"))
     return out
@@ -125,6 +125,8 @@ def cases_for(res: C.Result, deep: bool):
         add(c)
     for c in R.sub_changes(False):
         add(c)
+    for c in R.def_changes():
+        add(c)
     if deep:
         for c in R.sub_changes(True):
             add(c)
@@ -151,8 +153,11 @@ def run(res: C.Result, deep: bool):
     res.rule = ("exhaustive sequences of <= %d frames over 12 frame kinds (subscribed / unsubscribed / ACK / unknown / "
                 "size+ / size- / wrong version / zero version / signals; 7 core kinds at length 4) x timeout class {None,0,>0,<0} x ack x "
                 "sync_check x {FIN, idle}; cut at every byte offset of the last frame of sequences <= %d x {FIN, RST}; "
-                "3-frame queues x subscription change between reads; seeded random queues of <= 8 frames with "
-                "subscription changes, both header layouts, random segmenting; malformed streams (random bytes, "
+                "3-frame queues x subscription change between reads; 3-frame queues x a change of the local definition table "
+                "after the first read (a type registered again larger / smaller / with another hash through @message_def, a "
+                "definition added for an unknown type, a definition removed, three at once) x sync_check - every read is "
+                "judged against the table of its time; seeded random queues of <= 8 frames with "
+                "subscription changes (and, 1 in 25 reads, a definition-table change), both header layouts, random segmenting; malformed streams (random bytes, "
                 "negative / huge lengths, boundary type ids); a case is non-trivial when it has >= 1 whole frame.  "
                 "Several sessions of one Client object (real connect() / disconnect() / send_signal on scripted sockets "
                 "handed out by a socket shim): directed (a first session subscribed to a type or to all, ended by "
